@@ -1149,6 +1149,10 @@ def run(chk: core.Check) -> None:
                         for n, m, v, t, fi, k, _ in SYNTAX_CONFIGS[chk.tier]],
     }
     chk.coverage['exhaustive'] = True
+    chk.coverage['sampling'] = ('every state is replayed through translate_pattern + re (XPath mode); the slower routes are taken on a '
+                                'deterministic crc32 subset: fn:matches through the XPath parsers on 1/n of the classes / patterns '
+                                '(n per config, see CLASS_CONFIGS / AST_CONFIGS), XSD-mode translation on 1/n of the classes; '
+                                'RegexFns and RegexSyntax states all go through the XPath functions')
     chk.coverage['rule'] = ('every state of the dumped TLC graphs is one case: a class expression with its exact character set; '
                             'a pattern AST with its membership for every subject of the universe (search and full match); a '
                             '(pattern, input) pair with its admissible partitions; a token string with its validity. '
